@@ -19,10 +19,10 @@ import (
 	pscrape "github.com/prometheus/prometheus/scrape"
 
 	"kvassverif/core"
-	"kvassverif/sched"
 	"kvassverif/cyc"
 	"kvassverif/cycle"
 	"kvassverif/disco"
+	"kvassverif/sched"
 	"kvassverif/sidecarsim"
 	"kvassverif/simnet"
 
@@ -151,19 +151,19 @@ type World struct {
 	addrOf   map[uint64]string
 	sdSent   map[string]time.Time // addr -> when its discovery update was forwarded to the explorer
 	probeOK  map[string]time.Time // addr -> first successful probe
-	cfgSem   int // semantic revision of the coordinator's configuration
-	cfgCos   int // cosmetic revision
+	cfgSem   int                  // semantic revision of the coordinator's configuration
+	cfgCos   int                  // cosmetic revision
 	hist     []string
 	// fault plan
-	loseNextPost   map[string]string    // host -> "before" | "after"
-	failGetUntil   map[string]time.Time // host -> GETs fail until
-	lastFault      time.Time
-	faultsLeft     int
-	faultsDone     []string
-	scrapeFrom     map[string]map[string]int // addr -> pod name -> scrape attempts completed through that pod's proxy
+	loseNextPost      map[string]string    // host -> "before" | "after"
+	failGetUntil      map[string]time.Time // host -> GETs fail until
+	lastFault         time.Time
+	faultsLeft        int
+	faultsDone        []string
+	scrapeFrom        map[string]map[string]int // addr -> pod name -> scrape attempts completed through that pod's proxy
 	assignedOversized map[string]bool
-	markAt         map[string]int // pod/addr -> attempts of that pod when the copy was marked in_transfer
-	held           []*heldScrape
+	markAt            map[string]int // pod/addr -> attempts of that pod when the copy was marked in_transfer
+	held              []*heldScrape
 }
 
 func (w *World) logf(f string, a ...interface{}) {
@@ -410,12 +410,12 @@ func (w *World) ReleaseProbes() {
 }
 
 type heldScrape struct {
-	ch      chan struct{}
-	done    chan struct{}
-	pod     string
-	host    string
-	since   time.Time
-	cycles  int
+	ch     chan struct{}
+	done   chan struct{}
+	pod    string
+	host   string
+	since  time.Time
+	cycles int
 }
 
 func (w *World) countScrape(host, pod string) {
